@@ -43,6 +43,7 @@ pub fn check_all(h: &Hist, out: &Outcome, props: &[&str]) -> OracleOut {
         }
     };
     run_p("C03", &|| oracle_p::check_c03_concurrent(h));
+    run_p("C09", &|| oracle_p::check_c09_concurrent(h));
     run_p("C01", &|| oracle_p::check_c01(h));
     run_p("C02", &|| oracle_p::check_c02(h));
     run_p("C06", &|| oracle_p::check_c06(h));
@@ -95,21 +96,36 @@ fn engine_rules(h: &Hist, out: &Outcome, o: &mut OracleOut) {
         End::Stuck(desc) | End::Deadlock(desc) => {
             // attribute to the operations that never returned
             let mut attributed = false;
+            let close_invoked = h.ops.iter().any(|x| matches!(x.op, Op::Close));
             for op in h.ops.iter().filter(|x| !x.returned()) {
-                let prop = match op.op {
+                if matches!(op.op, Op::Barrier) {
+                    continue;
+                }
+                // an operation that never returns belongs to the property that promises its
+                // return (wait: C10, close: C12, clear: C11), to C12 whenever a close() is part of
+                // the history ("nothing blocks" around close), and to C20 (all operations complete)
+                let mut props: Vec<&str> = vec![match op.op {
                     Op::Wait => "C10",
                     Op::Close => "C12",
-                    Op::Barrier => continue,
+                    Op::Clear => "C11",
                     _ => "C20",
-                };
+                }];
+                if close_invoked && !props.contains(&"C12") {
+                    props.push("C12");
+                }
+                if !props.contains(&"C20") {
+                    props.push("C20");
+                }
                 attributed = true;
-                o.violations.push(viol(
-                    prop,
-                    "R-blocked-forever",
-                    op.inv_seq,
-                    &format!("{} never returns", op.op.name()),
-                    format!("{:?} by {} invoked at seq {} never returned; run ended: {} [{}]", op.op, op.task, op.inv_seq, if matches!(out.end, End::Stuck(_)) { "stuck" } else { "deadlock" }, desc),
-                ));
+                for prop in props {
+                    o.violations.push(viol(
+                        prop,
+                        "R-blocked-forever",
+                        op.inv_seq,
+                        &format!("{} never returns{}", op.op.name(), if close_invoked && !matches!(op.op, Op::Close) { " (with a close() in the history)" } else { "" }),
+                        format!("{:?} by {} invoked at seq {} never returned; run ended: {} [{}]", op.op, op.task, op.inv_seq, if matches!(out.end, End::Stuck(_)) { "stuck" } else { "deadlock" }, desc),
+                    ));
+                }
             }
             if !attributed {
                 o.violations.push(viol("C20", "R-blocked-forever", 0, "tasks blocked with no open operation", format!("run ended blocked: {}", desc)));
